@@ -550,6 +550,7 @@ func (fx *Fx) specIdent(env *SpecEnv, name string) Val {
 		return Val{T: g, S: "Bool", GT: types.Typ[types.Bool]}
 	}
 	// program scope
+	name = fx.renamed(name)
 	pkg := env.pkg
 	if pkg == nil {
 		pkg = fx.pkg
@@ -989,6 +990,13 @@ func (fx *Fx) specCall(env *SpecEnv, e *SCall) Val {
 			// ncalls(f): number of calls made so far through function value f (ghost counter)
 			c.declareFun("fn_code", []string{"Int"}, "Int")
 			return Val{T: fmt.Sprintf("(select %s (fn_code %s))", st.heap("NC", "(Array Int Int)"), arg(0).T), S: "Int", GT: intT}
+		case "ncallsTrueCode":
+			// ncallsTrueCode(code("...")): how many of the calls made so far through function values with that code returned true
+			return Val{T: fmt.Sprintf("(select %s %s)", st.heap("NCT", "(Array Int Int)"), arg(0).T), S: "Int", GT: intT}
+		case "ncallsTrue":
+			// ncallsTrue(f): how many of the calls made so far through function value f returned true
+			c.declareFun("fn_code", []string{"Int"}, "Int")
+			return Val{T: fmt.Sprintf("(select %s (fn_code %s))", st.heap("NCT", "(Array Int Int)"), arg(0).T), S: "Int", GT: intT}
 		case "intval":
 			// intval(x): the integer (or time, or reference) held by an interface value
 			return Val{T: "(i_val " + arg(0).T + ")", S: "Int", GT: intT}
@@ -1188,7 +1196,7 @@ func (fx *Fx) specCall(env *SpecEnv, e *SCall) Val {
 			}
 			var parts []string
 			for _, k := range sortedKeys(c.heapSorts()) {
-				if skip[k] || k == "NC" || k == "CNT" || k == "CNC" || k == "LV" || k == "NRT" {
+				if skip[k] || k == "NC" || k == "NCT" || k == "CNT" || k == "CNC" || k == "LV" || k == "NRT" {
 					continue
 				}
 				srt := c.heapSorts()[k]
@@ -1303,14 +1311,18 @@ func (fx *Fx) specCall(env *SpecEnv, e *SCall) Val {
 				}
 				// the variable lives on the heap when its address is taken (implicitly by such calls): its cell reference
 				var cell string
+				idName := id.Name
+				if _, isBound := env.bound[idName]; !isBound || fx.renamed(idName) != idName {
+					idName = fx.renamed(idName)
+				}
 				for o, t := range env.st.vars {
-					if o.Name() == id.Name && c.boxedVars[o] {
+					if o.Name() == idName && c.boxedVars[o] {
 						cell = t
 					}
 				}
 				if cell == "" && fx.entry != nil {
 					for o, t := range fx.entry.vars {
-						if o.Name() == id.Name && c.boxedVars[o] {
+						if o.Name() == idName && c.boxedVars[o] {
 							cell = t
 						}
 					}
@@ -1393,6 +1405,7 @@ func (fx *Fx) specPureCall(env *SpecEnv, fn *types.Func, recv *Val, args []Val) 
 		}
 		bound[fmt.Sprintf("arg%d", i)] = args[i]
 	}
+	fx.w.aliasRecordedNames(key, bound)
 	for _, e := range sp.Ensures {
 		if b, ok := e.Expr.(*SBinary); ok && (b.Op == "==" || b.Op == "<==>") {
 			if id, ok := b.X.(*SIdent); ok && id.Name == "result" {
